@@ -162,3 +162,11 @@ impl<'a> core::iter::Iterator for &mut MsgFrameIter<'a> {
         mf
     }
 }
+
+/// Verification hooks (off by default): re-exports the crate-private bit packer and
+/// data-field codecs so that external monitors can observe them in isolation.
+/// Enabled with `RUSTFLAGS="--cfg rtcm_rs_verif"`; adds no code otherwise.
+#[cfg(rtcm_rs_verif)]
+pub mod verif_hooks {
+    pub use crate::df::{assembler, bit_value, dfs, parser};
+}
